@@ -58,6 +58,9 @@ def generate(rng, tier):
     el = W.gen_elements(rng, tier)
     el["T"] = rng.choice([1, 2, 2, 4])
     el["B"] = rng.choice([4, 8, 8, 16, 32])
+    el["req"]["tmean"] = 0          # from_data builds its own requantiser
+    if rng.random() < 0.7:
+        el["dig"]["tmean"] = 0
     be = W.gen_backend(rng, ant, el)
     source = rng.choice(["ref", "ref", "setigen"])
     n_in = rng.choice([1, 2, 3, 4, 5, 5, 9, 14])
@@ -207,10 +210,11 @@ def expected_output(sc, in_blocks, reqs, digitize, cstds, n_out, ctx):
     for a in range(ant["n_ant"]):
         for p in range(ant["pols"]):
             dig_tstd = (fw[a][p] if fw else el["dig"]["fwhm"]) / mv.FWHM
+            dig_tmean = el["dig"].get("tmean", 0)
             chunks = [np.asarray(r[a][p]) for r in reqs]
             tie_risk = False
             if digitize:
-                dq = mv.RefQuant(0, dig_tstd, el["dig"]["bits"], el["dig"]["period"], el["dig"]["ncalc"])
+                dq = mv.RefQuant(dig_tmean, dig_tstd, el["dig"]["bits"], el["dig"]["period"], el["dig"]["ncalc"])
                 qs = []
                 for c in chunks:
                     pre, _ = dq.pre(c)
@@ -302,7 +306,8 @@ def execute(sc, ctx):
         # documented alternative: a 2-D list of quantisers / filterbanks of shape (num_antennas, num_pols)
         import copy as _copy
         import setigen.voltage as _sv
-        dig = [[_sv.RealQuantizer(target_fwhm=fw[a][p], num_bits=el["dig"]["bits"], stats_calc_period=el["dig"]["period"],
+        dig = [[_sv.RealQuantizer(target_mean=el["dig"].get("tmean", 0), target_fwhm=fw[a][p], num_bits=el["dig"]["bits"],
+                                  stats_calc_period=el["dig"]["period"],
                                   stats_calc_num_samples=el["dig"]["ncalc"]) for p in range(ant["pols"])] for a in range(ant["n_ant"])]
         fb = [[_copy.deepcopy(fb) for p in range(ant["pols"])] for a in range(ant["n_ant"])]
         if len({x for row in fw for x in row}) > 1:
